@@ -153,6 +153,12 @@ def run(ctx):
                     ctx.count('network-without-%s-prefix' % wt)
                     continue
                 cases.append(('addr %s %s %s %s' % (net, enc, typ, hk2.public_byte.hex()), att(lambda: hk2.address()), True))
+                if wt == 'legacy':
+                    # the uncompressed form asked of a (compressed) HD key object, by argument and by method
+                    ctx.count('hdkey-explicit-uncompressed')
+                    cases.append(('addr %s base58 p2pkh %s' % (net, hk2.public_uncompressed_byte.hex()), att(lambda: hk2.address(compressed=False)), True))
+                    cases.append(('addr %s base58 p2pkh %s' % (net, hk2.public_uncompressed_byte.hex()), att(lambda: hk2.address_uncompressed()), True))
+                    cases.append(('addr %s base58 p2pkh %s' % (net, hk2.public_byte.hex()), att(lambda: hk2.address()), True))
     ctx.compare(cases, 'address')
     ctx.exhaustive = False
     ctx.assumptions += ['p2tr: only the encoding of a given 32-byte output key is claimed (the library has no taproot key tweaking)']
